@@ -644,7 +644,7 @@ func (fx *FnExec) execBlock(st *State, b *ssa.BasicBlock, pred *ssa.BasicBlock, 
 		fx.emit(st, &Obligation{Kind: "vacuity", Name: fmt.Sprintf("loop%d-invariant-sat", lp.ordinal), Goal: "false", Canary: true})
 	} else {
 		fx.evalPhis(st, b, pred)
-		if fx.merge && len(b.Preds) >= 2 {
+		if fx.merge && len(b.Preds) >= 2 && !fx.noMergeAt(b) {
 			fx.arriveAtJoin(st, b, k, depth)
 			return
 		}
@@ -2206,4 +2206,18 @@ found:
 		}
 		st.ghost[key] = n
 	}
+}
+
+// noMergeAt: the block lies in the body of a loop whose paths the contract asks to enumerate.
+func (fx *FnExec) noMergeAt(b *ssa.BasicBlock) bool {
+	fc := fx.eng.contractOf(b.Parent())
+	if fc == nil || len(fc.NoMergeLoop) == 0 {
+		return false
+	}
+	for _, lp := range fx.loopsOf(b.Parent()) {
+		if fc.NoMergeLoop[lp.ordinal] && lp.blocks[b] && lp.header != b {
+			return true
+		}
+	}
+	return false
 }
